@@ -156,8 +156,9 @@ CHECKS = {
          "amplitude models); (b) for the 8 spherically symmetric models the model's own Fq code (IR, special functions uninterpreted) gives F^2 = F1^2 at every q "
          "(to 1e-12 relative for literal round-off); (c) every 'equivalent (outer) volume sphere' mode satisfies 4/3 pi R^3 = V_form with radius_effective and "
          "form_volume interpreted from IR (cbrt axiom); (e) <F>^2 <= <F^2> under dispersity follows from the per-point inequality (Cauchy-Schwarz, meshes <= 3). "
-         "Positivity of R_eff and the volumes is attempted as an extended obligation and reported as proved/not proved per mode. The anisotropic Jensen inequality and "
-         "the q->0 limit are outside solver reach and stated as such.",
+         "Positivity of R_eff and the volumes is attempted as an extended obligation and reported as proved/not proved per mode. (f) extended: for the anisotropic models "
+         "the per-particle inequality F1^2 <= F2 is established by a Cauchy-Schwarz certificate over the model's own Gauss quadrature (Fq interpreted from IR, solver lemma "
+         "a_k^2 = c_k b_k per addend, sum c_k <= 1): complete for 13 of 18 models, the others are reported undecided. The q->0 limit is outside solver reach.",
     design="3/C14", engine="symx+llsym",
     technique="symbolic execution of the LLVM IR of each model's Fq/form_volume/shell_volume/radius_effective with library special functions uninterpreted; z3 QF_NRA identities (shared subterms generalised, UF abstracted); C01 harness for the accumulator clause"),
  "C11": dict(
